@@ -28,6 +28,11 @@
 (declare-fun sub.cache.disk.entry.value (Int) Int)
 (declare-fun subinv.cache.disk.entry.value (Int) Int)
 (define-fun itemOf ((x Int)) Int (sub.cache.disk.entry.value x))
+; path joining and formatting are uninterpreted (format string and arguments determine the result)
+(declare-fun pjoin2 (GStr GStr) GStr)
+(declare-fun pjoin3 (GStr GStr GStr) GStr)
+(declare-fun sprintf3 (GStr Int Int Int) GStr)
+(declare-fun sprintf4 (GStr Int Int Int Int) GStr)
 ; strings.HasPrefix and regular-expression matching are uninterpreted
 (declare-fun hasPrefix (GStr GStr) Bool)
 (declare-fun reMatch (Int GStr) Bool)
@@ -60,6 +65,7 @@
 ; boxing of strings into interface payloads, and interface-typed map keys
 (declare-fun box.str (GStr) Int)
 (declare-fun unbox.str (Int) GStr)
+(define-fun boxstr ((s GStr)) Int (box.str s))
 (declare-fun ikey (Int Int) Int)
 (declare-fun ikey.tag (Int) Int)
 (declare-fun ikey.val (Int) Int)
